@@ -162,7 +162,7 @@ PLAN['C11'] = {
     'technique': 'Verus total-mode proofs (every assert!/panic!/unwrap/index/overflow in alloc.rs, lru.rs, reg_tape.rs, simplify is an obligation); Kani full-domain totality harnesses for Interval operations; bounded native contract runner for the evaluators',
     'level_text': 'Proved: the compiler core (register allocation for N in 3..=255, simplify) cannot panic on well-formed tapes; Interval select/round operations return normally on ALL valid intervals including infinite bounds and the NaN interval (Kani, complete); add/sub/scale/neg are total on all valid intervals (Verus on the real text, under the float axioms: after the repair the obligation is monotonicity of one f32 operation, which CBMC cannot decide). The four VM evaluator loops cannot panic on tapes satisfying tape_ok: every slot/output/input index, every advance of the choice cursor and every range copy is an obligation of the Verus proofs of the real eval functions (unit vm), and the only failure is the documented argument error. The Shape-level wrappers ShapeTracingEval::eval_raw and ShapeBulkEval::eval_raw cannot panic either (unit shape: their unreachable!() arms are proved unreachable, whatever a reused evaluator object held).  The remaining Interval arithmetic and the JIT are bounded stand-ins.',
     'level_note': 'Trusted: Verus+Z3, Kani/CBMC. Not covered: stack exhaustion, allocation failure. Bounded only: JIT evaluators, Interval/Grad arithmetic other than the functions of unit interval on overflow grids, VarMap::check_bulk_arguments (stub in unit vm).',
-    'legs': [leg_verus('alloc'), leg_verus('simplify'), leg_verus('interval'), leg_verus('vm'), leg_verus('shape'), leg_kani('leaf'), leg_bounded('interp_interval'), leg_bounded('total'), leg_bounded('jit_interval_valid')],
+    'legs': [leg_verus('alloc'), leg_verus('simplify'), leg_verus('interval'), leg_verus('vm'), leg_verus('shape'), leg_verus('varmap'), leg_kani('leaf'), leg_bounded('interp_interval'), leg_bounded('total'), leg_bounded('jit_interval_valid')],
     'cex': ['total', 'interp_interval', 'alloc_cex', 'simplify_sem'],
     'explanation': 'Totality of the integer state machines is a corollary of their total-mode proofs; the genuine defect found here (Interval add/sub/scale panicking on NaN bounds) is repaired in /repo (fix: 081f714).',
     'assumptions': ['sqrt/square/recip/mul/div/trig totality of Interval: bounded leg only (CBMC models sqrtf/powi nondeterministically; one f32 division does not finish)'],
@@ -261,8 +261,8 @@ del NOT_APPLICABLE['C12']
 PLAN['C14'] = {
     'level': 'other',
     'technique': 'contract-based deductive verification (Verus) of the Shape-level tracing evaluator wrapper of shape/mod.rs on its real text, generic over the wrapped evaluator, the coordinate type and the variable-value type; bounded native contract runner over permutations of variables, supply orders and transforms on both back ends',
-    'level_text': 'Partial (binding clause; the tracing wrappers fully, the many-point/gradient wrapper for the axes and for totality). Proved for every evaluator E: TracingEvaluator, every tape whose variable map is well-formed, all coordinates, every optional transform and every set of supplied variable values: ShapeTracingEval::eval_raw calls the wrapped evaluator on an argument vector in which, for every entry (var, index) of the tape\'s variable map, slot index holds the value of var - the (converted, then transformed) x, y or z for the axes, the converted supplied value for Var::V(i) - independently of the order in which the map enumerates its entries and of anything else in the supplied set (extra variables are never read); the result is the wrapped evaluator\'s first output on that vector; a variable of the map that is not supplied yields the MissingVar error and nothing else is an error (the inner argument error is proved unreachable); the four public wrappers eval / eval_with_transform / eval_with_vars / eval_with_transform_and_vars are eval_raw with the corresponding arguments.  That simplification keeps the variable numbering is proved under C04 (simplify ensures r.vars == self.vars).  Also proved (generic over E: BulkEvaluator and over the closure that fills the rows of free variables): ShapeBulkEval::eval_raw / eval / eval_with_transform return Err for x, y, z of different lengths, otherwise shape the argument matrix as max(#variables, 1) rows of exactly n samples whatever the evaluator object held before, call the closure exactly once per free variable of the map with that variable\'s own row and index, write the (transformed) positions into the rows of the axes at the map\'s indices for every sample, return n samples which are the wrapped evaluator\'s first output row on that matrix, and cannot panic (both `unreachable!()` arms and every index are obligations).  Also proved: <Interval as Transformable>::transform and <Grad as Transformable>::transform return (h0/h3, h1/h3, h2/h3) with h_i = x*M[i][0] + y*M[i][1] + z*M[i][2] + from(M[i][3]) in the type\'s own arithmetic, i.e. the projective image M·(x,y,z,1) divided by its homogeneous coordinate, for every matrix (no affine shortcut).  NOT covered by proof: what the row-filling closures var_value / var_array write (closures returned as `impl Fn`; bounded contract shape_bind and total part (d)), that `VarMap::iter` enumerates exactly the assigned indices (chained iterators: the opaque stand-in of the other units; the index assignment itself is proved in unit varmap: VarMap::insert keeps every variable at most once with pairwise distinct indices below len, gives a new variable the next index and never changes an assigned one; get returns the assigned index), Transformable for f32 (nalgebra transform_point; bounded contract shape_transform compares all four evaluator kinds on both back ends with an f64 reference of the projective map, gradients against central differences), the Jacobian pass of the solver Solver::get_jacobian and Solver::new / solve (enumerate over iter_mut, nalgebra DMatrix/SVD, iterator chains; bounded contract solver_bind: triangular linear systems whose fixed and free parameters sit in different slots of different equations), the GPU/mesher call sites.  Proved in unit solver (real text of fidget-solver/src/lib.rs, std HashMap through the HashMap model of vstd): Solver::get_err calls the point evaluator, for every equation, on an argument vector that binds by identity every parameter occurring in the variable map of that equation (the fixed value, or cur[gi] - delta[gi] with gi = grad_index[v]), although one array is shared by all equations and each tape numbers its variables differently; the result is the sum of the squared first outputs; neither unwrap nor any index can panic.',
-    'level_note': 'Level other: the binding mechanism of the tracing wrappers is proved generically; the other evaluator kinds and the construction of the variable map are outside the technique (closures over &mut slices, HashMap entry API, nalgebra) and are only exercised by bounded contracts. Trusted: Verus+Z3; stubs VarMap (entries/wf/len/iter_vec), ShapeVars (finite map), Matrix4 (opaque, entries m(i,j), row(i) as four entries), Interval/Grad operators +, /, * f32, From<f32> with uninterpreted meanings (under contract in units interval/grad); the trait contracts of TracingEvaluator::eval (satisfied by the VM evaluators: unit vm) and Transformable::transform; extractor rules R-iter, R-alias, R-derive-from, R-spec-in-trait, R-arraymap, R-intoiter, R-continue, R-hashindex, R-compound; unit solver additionally assumes obeys_key_model::<Var>() (the derived Hash/Eq of Var are consistent), the VarMap::get stub, trait Function reduced to two associated types, and as preconditions what Solver::new establishes (well-formed variable maps that fit the shared array, grad_index numbering the free parameters below cur.len()).',
+    'level_text': 'Partial (binding clause; the tracing wrappers fully, the many-point/gradient wrapper for the axes and for totality). Proved for every evaluator E: TracingEvaluator, every tape whose variable map is well-formed, all coordinates, every optional transform and every set of supplied variable values: ShapeTracingEval::eval_raw calls the wrapped evaluator on an argument vector in which, for every entry (var, index) of the tape\'s variable map, slot index holds the value of var - the (converted, then transformed) x, y or z for the axes, the converted supplied value for Var::V(i) - independently of the order in which the map enumerates its entries and of anything else in the supplied set (extra variables are never read); the result is the wrapped evaluator\'s first output on that vector; a variable of the map that is not supplied yields the MissingVar error and nothing else is an error (the inner argument error is proved unreachable); the four public wrappers eval / eval_with_transform / eval_with_vars / eval_with_transform_and_vars are eval_raw with the corresponding arguments.  That simplification keeps the variable numbering is proved under C04 (simplify ensures r.vars == self.vars).  Also proved (generic over E: BulkEvaluator and over the closure that fills the rows of free variables): ShapeBulkEval::eval_raw / eval / eval_with_transform return Err for x, y, z of different lengths, otherwise shape the argument matrix as max(#variables, 1) rows of exactly n samples whatever the evaluator object held before, call the closure exactly once per free variable of the map with that variable\'s own row and index, write the (transformed) positions into the rows of the axes at the map\'s indices for every sample, return n samples which are the wrapped evaluator\'s first output row on that matrix, and cannot panic (both `unreachable!()` arms and every index are obligations).  Also proved: <Interval as Transformable>::transform and <Grad as Transformable>::transform return (h0/h3, h1/h3, h2/h3) with h_i = x*M[i][0] + y*M[i][1] + z*M[i][2] + from(M[i][3]) in the type\'s own arithmetic, i.e. the projective image M·(x,y,z,1) divided by its homogeneous coordinate, for every matrix (no affine shortcut).  Also proved (round 6): the row fillers ShapeBulkEval::var_value / var_array (closures returned as `impl Fn`, with their postconditions on the closure) and the four public many-point wrappers with variables: eval_with_vars / eval_with_transform_and_vars return Err exactly for unequal x, y, z lengths or a variable of the shape that is not supplied, and otherwise evaluate on an argument matrix whose row for each free variable holds, in every sample, the value supplied under that variable\'s own identity (vals_bound); eval_with_var_arrays / eval_with_transform_and_var_arrays likewise with the supplied array copied sample by sample (arrs_bound) and the additional error of an array of another length; ShapeBulkEval::eval_raw exports, generically in the row filler, that the row of every free variable is what the filler wrote when called with that variable\'s own index (vars_bound, a prophetic predicate over the closure\'s postcondition) and that a failure of the filler on a row of n samples is the only other error.  NOT covered by proof: that `VarMap::iter` enumerates exactly the assigned indices (chained iterators: the opaque stand-in of the other units; the index assignment itself is proved in unit varmap: VarMap::insert keeps every variable at most once with pairwise distinct indices below len, gives a new variable the next index and never changes an assigned one; get returns the assigned index), Transformable for f32 (nalgebra transform_point; bounded contract shape_transform compares all four evaluator kinds on both back ends with an f64 reference of the projective map, gradients against central differences), the Jacobian pass of the solver Solver::get_jacobian and Solver::new / solve (enumerate over iter_mut, nalgebra DMatrix/SVD, iterator chains; bounded contract solver_bind: triangular linear systems whose fixed and free parameters sit in different slots of different equations), the GPU/mesher call sites.  Proved in unit solver (real text of fidget-solver/src/lib.rs, std HashMap through the HashMap model of vstd): Solver::get_err calls the point evaluator, for every equation, on an argument vector that binds by identity every parameter occurring in the variable map of that equation (the fixed value, or cur[gi] - delta[gi] with gi = grad_index[v]), although one array is shared by all equations and each tape numbers its variables differently; the result is the sum of the squared first outputs; neither unwrap nor any index can panic.',
+    'level_note': 'Level other: the binding mechanism of the tracing wrappers is proved generically; the other evaluator kinds and the construction of the variable map are outside the technique (closures over &mut slices, HashMap entry API, nalgebra) and are only exercised by bounded contracts. Trusted: Verus+Z3; stubs VarMap (entries/wf/len/iter_vec), ShapeVars (finite map), Matrix4 (opaque, entries m(i,j), row(i) as four entries), Interval/Grad operators +, /, * f32, From<f32> with uninterpreted meanings (under contract in units interval/grad); the trait contracts of TracingEvaluator::eval (satisfied by the VM evaluators: unit vm) and Transformable::transform; extractor rules R-iter, R-alias, R-derive-from, R-spec-in-trait, R-arraymap, R-zipmut, R-deref, R-let, R-intoiter, R-continue, R-hashindex, R-compound; unit solver additionally assumes obeys_key_model::<Var>() (the derived Hash/Eq of Var are consistent), the VarMap::get stub, trait Function reduced to two associated types, and as preconditions what Solver::new establishes (well-formed variable maps that fit the shared array, grad_index numbering the free parameters below cur.len()).',
     'legs': [leg_verus('shape'), leg_verus('solver'), leg_verus('varmap'), leg_bounded('shape_bind'), leg_bounded('shape_transform'), leg_bounded('solver_bind')],
     'cex': ['shape_bind', 'shape_transform'],
     'explanation': 'bound(s, map, x, y, z, vars): s[index] == bind(var) for every entry of the map; the loop invariant carries it for the entries visited so far (distinct indices keep earlier slots intact) together with "no visited free variable is missing".',
